@@ -212,7 +212,7 @@ def cutoff_case(case):
     return {"ok": True, "nt": True, "ops": k, "out": "certified" if deg else "grid-only", "extra": {"certified": int(bool(deg)), "grid": len(pts)}}
 
 
-FUNCS = {"special_bases": chain_case, "exact_parameters": chain_case, "chains": chain_case, "termination": chain_case, "transcendental_pairs": chain_case, "cutoff": cutoff_case}
+FUNCS = {"unit_fractions": chain_case, "special_bases": chain_case, "exact_parameters": chain_case, "chains": chain_case, "termination": chain_case, "transcendental_pairs": chain_case, "cutoff": cutoff_case}
 
 
 def chains(depth, max_trans=1):
@@ -242,6 +242,11 @@ def run(run):
     secs.append(Section("exact_parameters", ecases, chain_case, horizon=300, chunk=8, desc="all algebraic modifier chains (at most one power) of depth <= 2 over %d bases with exact sympy parameters (pi/3, ...) / root-of-unity entries" % len(EXACT_BASES)))
     scases = [{"base": b, "chain": c, "maxq": 4} for b in SPECIAL_BASES for c in chains(2, max_trans=0)]
     secs.append(Section("special_bases", scases, chain_case, horizon=300, chunk=8, desc="all algebraic chains of depth <= 2 over %d bases at special parameter points (identity / Hermitian matrices), then replace_params" % len(SPECIAL_BASES)))
+    # unit fractions 1/q for many q (small, prime, powers of two, around 100 and 1000): "a matrix whose q-th power is the original"
+    qs = (2, 3, 4, 5, 7, 10, 16, 64, 99, 100, 101, 128, 360, 1000, 1024) if thorough else (4, 5, 7, 16, 100, 101, 128, 1024)
+    uf = [{"base": b, "chain": [["power", "1/%d" % q]], "maxq": 2} for b in (G("X"), G("T"), G("S"), G("H"), G("RX", 0.3), G("PHASE", 2.5), G("SWAP"), G("ISWAP"), G("custom1"), G("XX", 0.3)) for q in qs]
+    uf += [{"base": b, "chain": [["power", "1/%d" % q], ["controlled", 1]], "maxq": 3} for b in (G("T"), G("RX", 0.3)) for q in (5, 128)]
+    secs.append(Section("unit_fractions", uf, chain_case, horizon=300, chunk=2, desc="power(1/q) for q in %s over 10 bases: the q-th power of the returned matrix is the original" % (list(qs),)))
     secs.append(Section("transcendental_pairs", tp, chain_case, horizon=300, chunk=1, desc="transcendental modifier applied on top of a transcendental one"))
     term = [{"base": G("T"), "chain": c, "maxq": 2} for c in ([["exp"]], [["dagger"], ["exp"]], [["power", 2], ["exp"]], [["power", "1/2"]], [["power", "1/3"]])] + \
            [{"base": G("S"), "chain": [["exp"]], "maxq": 2}, {"base": G("PHASE", 2.5), "chain": [["exp"]], "maxq": 2}]
